@@ -69,7 +69,7 @@ def proof_failure_violation(ctx):
                        'replay': 'cd coq && make Properties_%s.vo' % ctx.pid}, found_input=False)
 
 def corr(ctx, gname, lines, project, lib=None, nontrivial=None, exhaustive=False, note='', describe=None,
-         chunk=2000000):
+         chunk=2000000, genuine=True):
     """Run one generator's cases through both drivers, compare under [project]
     (a function (case_line, output_line) -> comparable value).  Returns list of mismatches."""
     lib = lib or ctx.snap.lib()
@@ -95,7 +95,11 @@ def corr(ctx, gname, lines, project, lib=None, nontrivial=None, exhaustive=False
                'implementation': a, 'model': b, 'projected_implementation': pa, 'projected_model': pb}
         if describe:
             obj['explanation'] = describe(ln, a, b)
-        ctx.rep.violation(obj, found_input=True)
+        g = genuine(ln, a, b) if callable(genuine) else genuine
+        if not g:
+            obj['note'] = ('the implementation no longer behaves as the model the theorems are about; the relation the property states was evaluated on the '
+                           'implementation outputs separately and is reported on its own if it fails')
+        ctx.rep.violation(obj, found_input=bool(g))
     return mism
 
 def finish(ctx, rule, level='proof', extra_trusted=(), assumptions=(), extra_cov=None):
@@ -212,7 +216,7 @@ def check_C12(ctx):
     def rel_plain(ln, o):
         f = o.split(' ')
         return len(f) == 4 and len(set(f)) == 1
-    m = corr(ctx, 'plain-local(len<=%d)' % n, lines, full, exhaustive=True, nontrivial=nontriv,
+    m = corr(ctx, 'plain-local(len<=%d)' % n, lines, full, exhaustive=True, nontrivial=nontriv, genuine=False,
              describe=lambda ln, a, b: 'return codes of the four scanners on a plain ASCII local part differ from the model (theorem C12_plain_local_parts_agree is about the model): %s vs %s' % (a, b))
     c_out, _ = vlib.run_both(lib, ctx.snap, lines)
     for ln, o in sorted([(l, o) for l, o in zip(lines, c_out) if not rel_plain(l, o)], key=lambda t: len(t[0]))[:3]:
@@ -220,7 +224,7 @@ def check_C12(ctx):
                            'explanation': 'pure-ASCII local part without DQUOTE/backslash: the four scanners must return the same code (fields: 822 5321 5322 6531)'})
     # (2) inclusion 5321 in 822 over the full local alphabet
     lines2 = gens.local_class(5) + gens.local_sweep()
-    m2 = corr(ctx, 'inclusion-5321-822', lines2, lambda ln, o: tuple(dec(x) for x in o.split(' ')[:2]), exhaustive=True, nontrivial=nontriv)
+    m2 = corr(ctx, 'inclusion-5321-822', lines2, lambda ln, o: tuple(dec(x) for x in o.split(' ')[:2]), exhaustive=True, nontrivial=nontriv, genuine=False)
     c2, _ = vlib.run_both(lib, ctx.snap, lines2)
     for ln, o in sorted([(l, o) for l, o in zip(lines2, c2) if len(o.split(' ')) == 4 and dec(o.split(' ')[1]) and not dec(o.split(' ')[0])], key=lambda t: len(t[0]))[:3]:
         ctx.rep.violation({'kind': 'relation', 'relation': 'C12_5321_included_in_822', 'case': ln, 'implementation': o,
@@ -229,7 +233,7 @@ def check_C12(ctx):
     addrs = gens.addr_class(5 if ctx.thorough() else 4) + gens.addr_structured() + gens.addr_boundary()
     orc = vlib.idn_oracle(gens.domains_of(addrs))
     elines = gens.e_lines(addrs, orc)
-    corr(ctx, 'addresses', elines, lambda ln, o: ' '.join(o.split(' ')[:3]), nontrivial=nontriv, exhaustive=False,
+    corr(ctx, 'addresses', elines, lambda ln, o: ' '.join(o.split(' ')[:3]), nontrivial=nontriv, exhaustive=False, genuine=False,
          describe=lambda ln, a, b: 'result (rc, idn_rc, flags) of is_<mode>_email differs from the model the C12 theorems are about: %s vs %s' % (a, b))
     c3, _ = vlib.run_both(lib, ctx.snap, elines)
     by_addr = {}
@@ -263,7 +267,501 @@ def check_C12(ctx):
                   'implementation outputs alone, and the outputs are compared with the model; non-trivial = not an empty part',
                   extra_trusted=['libidn2 2.3.3 as IDN oracle'])
 
-CHECKS = {'C12': check_C12, 'C03': check_C03, 'C02': check_C02, 'C04': check_C04}
+# ------------------------------------------------------------------ helpers for e-mail level checks
+def first_fields(k):
+    return lambda ln, o: ' '.join(o.split(' ')[:k])
+def nontriv_addr(ln, o):
+    return not o.startswith(('-16 ', '-3 '))
+def relation_violation(ctx, relation, obj):
+    o = {'kind': 'relation', 'relation': relation}; o.update(obj)
+    ctx.rep.violation(o)
+
+# ------------------------------------------------------------------ C01
+def check_C01(ctx):
+    step_proof(ctx)
+    lib = ctx.snap.lib()
+    n = 5 if ctx.thorough() else 4
+    addrs = gens.addr_class(n + 1 if ctx.thorough() else n + 1, alpha=[b'a', b'.', b'@', b'[', b']', b'1', b':']) + \
+            gens.addr_class(n) + gens.addr_class(n, alpha=gens.ADDR_ALPHA_Q) + gens.addr_structured() + gens.addr_boundary()
+    addrs = sorted(set(addrs))
+    orc = vlib.idn_oracle(gens.domains_of(addrs))
+    el = gens.e_lines(addrs, orc)
+    desc = lambda ln, a, b: ('result code of is_<mode>_email (fields: mode tld address) differs from the model of theorems C01_decision_*/C01_composition: '
+                             'implementation "%s", model "%s" (rc idn_rc flags)' % (a, b))
+    corr(ctx, 'addresses(is_*_email)', el, first_fields(1), nontrivial=nontriv_addr, describe=desc,
+         note='all strings <= %d over 12 structural classes, <= %d over a quoted-string alphabet, <= %d over {a . @ [ ] 1 :}; 62-67 octet local parts in 9 word shapes with extra @; '
+              'structured local x domain products; 4 modes x tld off/on' % (n, n, n + 1))
+    # route 2: the same addresses through the public per-part validators, composed as the property describes (implementation only)
+    kl = [l.replace('E ', 'K ', 1) for l in el]
+    c_e, _ = vlib.run_both(lib, ctx.snap, el)
+    c_k, m_k = vlib.run_both(lib, ctx.snap, kl)
+    ctx.rep.add_cases('composition(per-part validators)', kl, c_k, nontriv_addr, note='relation on implementation outputs: is_*_email == composition of public validators')
+    bad = [(l, a, b) for l, a, b in zip(el, c_e, c_k) if ' '.join(a.split(' ')[:3]) != b]
+    for l, a, b in sorted(bad, key=lambda t: len(t[0]))[:3]:
+        relation_violation(ctx, 'C01_composition', {'case': l, 'is_email': a, 'composition_of_public_validators': b,
+                           'explanation': 'decision/error code/flags of the high-level validator differ from composing the public per-part validators on L and D'})
+    # route 3: through the facade: the mode set before eav_setup is the one applied
+    sample = [a for a in addrs if len(a) <= 4] + gens.addr_structured() + gens.addr_boundary()
+    al = []
+    for a in sample:
+        for m in range(4):
+            for t in (0, 1):
+                al.append('A i r%d t%d s %s x f' % (m, t, gens.enc_e(a, orc)))
+    corr(ctx, 'facade(eav_is_email)', al, lambda ln, o: o, nontrivial=lambda ln, o: ':-16' not in o and ':-3,' not in o,
+         describe=lambda ln, a, b: 'eav_init; rfc=m; tld_check=t; eav_setup; eav_is_email; eav_errstr; eav_free differs from the model: "%s" vs "%s"' % (a, b))
+    # wiring relation on the implementation: facade result == direct call of the mode's validator
+    c_a, _ = vlib.run_both(lib, ctx.snap, al)
+    emap = {}
+    for l, o in zip(el, c_e):
+        f = l.split(' '); emap[(f[3], int(f[1]), int(f[2]))] = o.split(' ')
+    nb = 0
+    for l, o in zip(al, c_a):
+        f = l.split(' ')
+        m, t = int(f[2][1:]), int(f[3][1:]); ah = f[5][1:].split('/')[0]
+        tok = o.split(' ')
+        if len(tok) < 5 or ':' not in tok[4]: continue
+        res = tok[4].split(':')[3].split(',') if tok[4].count(':') >= 3 else None
+        ref = emap.get((ah, m, t))
+        if res and ref and (res[0] != ref[0] or res[2] != ref[2]) and nb < 3:
+            nb += 1
+            relation_violation(ctx, 'C01_mode_wiring', {'case': l, 'facade': o, 'direct_validator': ' '.join(ref),
+                               'explanation': 'eav_is_email after eav_setup with rfc=%d does not give the result of that mode\'s validator' % m})
+    return finish(ctx, rule='E cases (direct validators), K cases (public per-part validators composed by the harness), A cases (facade); projection = result code '
+                  '(decision and error code); non-trivial = neither empty address nor empty domain', extra_trusted=['libidn2 2.3.3 as IDN oracle'])
+
+# ------------------------------------------------------------------ C07
+def check_C07(ctx):
+    step_proof(ctx)
+    lib = ctx.snap.lib()
+    tab = ctx.snap.dump()['tld']
+    labels = gens.tld_labels(tab, ctx.rnd, full=ctx.thorough())
+    desc = lambda ln, a, b: 'is_tld / e-mail TLD class differs from the model (C07_lookup_whole_label: first row ci-EQUAL to the whole label of the table dumped from this build): implementation %s, model %s' % (a, b)
+    corr(ctx, 'is_tld(labels)', ['T %s' % hx(l) for l in labels], lambda ln, o: o, nontrivial=lambda ln, o: o != '-26' or len(ln) > 8,
+         describe=desc, note='every table row in 4 case patterns, every proper prefix, one-character extensions, substitutions, neighbour concatenations, random labels')
+    # e-mail level: rows x case x 1-4 preceding labels, four modes, TLD checking on
+    doms = []
+    names = [bytes.fromhex(n) for n, l, t in tab]
+    pres = [b'b.', b'a.b.', b'x.y.z.', b'a-1.b2.c.d.']
+    for i, nme in enumerate(names):
+        for j, v in enumerate(gens.case_variants(nme)[:3]):
+            doms.append(pres[(i + j) % 4] + v)
+        doms.append(nme)                    # single label: not FQDN
+        doms.append(b'b.' + nme[:-1])
+        doms.append(b'b.' + nme + b'x')
+        doms.append(nme + b'.' + b'zz-unlisted')
+    orc = vlib.idn_oracle(doms)
+    el = gens.e_lines([b'u@' + d for d in doms], orc, tlds=(1,))
+    corr(ctx, 'email(tld on)', el, first_fields(1), nontrivial=nontriv_addr, describe=desc)
+    # U-label vs A-label: every IDN row of raw.csv in both spellings, through is_utf8_domain and the composers
+    import csv
+    raw = list(csv.reader(open(os.path.join(ctx.snap.src, 'data', 'raw.csv'), newline='', encoding='utf-8')))[1:]
+    ul = [r[0].encode() for r in raw if any(ord(c) > 127 for c in r[0])]
+    ud = [b'b.' + u for u in ul] + [u + b'.' + u for u in ul]
+    orc2 = vlib.idn_oracle(ud)
+    ad = [orc2[d][1] for d in ud if orc2[d][0] == 0]
+    orc2.update(vlib.idn_oracle(ad))
+    ulines = gens.u_lines(ud + ad, orc2, tlds=(1,))
+    corr(ctx, 'U/A-label(is_utf8_domain)', ulines, first_fields(2), describe=desc, nontrivial=lambda ln, o: True)
+    c_u, _ = vlib.run_both(lib, ctx.snap, ulines)
+    res = {}
+    for l, o in zip(ulines, c_u):
+        res[l.split(' ')[2]] = o.split(' ')[0]
+    nb = 0
+    for d in ud:
+        rc, a = orc2[d]
+        if rc == 0 and res.get(hx(d)) != res.get(hx(a)) and nb < 3:
+            nb += 1
+            relation_violation(ctx, 'C07_U_and_A_label_agree', {'u_label': hx(d), 'a_label': hx(a), 'rc_u': res.get(hx(d)), 'rc_a': res.get(hx(a)),
+                               'explanation': 'U-label and A-label spelling of the same domain classified differently in mode 6531'})
+    return finish(ctx, rule='T cases: is_tld on labels; E/U cases with TLD checking on; table = tld_list[] dumped from the library built on this run; projection = result code',
+                  extra_trusted=['libidn2 2.3.3 as IDN oracle'])
+
+# ------------------------------------------------------------------ C09
+def check_C09(ctx):
+    step_proof(ctx)
+    doms = gens.reserved_domains(full=ctx.thorough())
+    desc = lambda ln, a, b: 'is_special_domain / class of a reserved-looking domain differs from the model (C09_reserved_exactly: special iff last label in {test,example,invalid,localhost,onion} or last two labels example.{com,net,org}): implementation %s, model %s' % (a, b)
+    corr(ctx, 'is_special_domain', ['S %s' % hx(d) for d in doms], lambda ln, o: o, exhaustive=True, describe=desc,
+         nontrivial=lambda ln, o: True, note='0-3 labels of lengths 1-63 and the words example/mailbox/test/com... before each reserved suffix and its one-edit neighbours, several case patterns')
+    valid = [d for d in doms if not d.endswith(b'.') and b'..' not in d and not d.startswith(b'.')]
+    orc = vlib.idn_oracle(valid)
+    corr(ctx, 'email(tld on)', gens.e_lines([b'u@' + d for d in valid], orc, tlds=(1,)), first_fields(1), describe=desc, nontrivial=nontriv_addr)
+    return finish(ctx, rule='S cases: is_special_domain; E cases: u@domain with TLD checking on in four modes; projection = verdict / result code',
+                  extra_trusted=['libidn2 2.3.3 as IDN oracle'])
+
+# ------------------------------------------------------------------ C08
+def check_C08(ctx):
+    step_proof(ctx)
+    lib = ctx.snap.lib()
+    jl = ['J %d %d %d %d' % (m, mask, t, rc) for m in range(4) for mask in range(2048) for t in (0, 1) for rc in list(range(-35, 10))]
+    desc = lambda ln, a, b: 'eav_is_email over a callback returning the given code (fields: mode mask tld_check code) gives (ret errcode) %s, the model of theorem C08_policy gives %s' % (a, b)
+    corr(ctx, 'policy(stub callback)', jl, lambda ln, o: o, exhaustive=True, describe=desc, nontrivial=lambda ln, o: not ln.endswith(' 0'),
+         note='all 2^11 masks x every code -35..9 x 4 modes x tld_check off/on')
+    # real addresses of every class the table holds + reserved + literals, selected masks, through the facade
+    tab = ctx.snap.dump()['tld']
+    byclass = {}
+    for nme, l, t in tab:
+        byclass.setdefault(t, bytes.fromhex(nme))
+    addrs = [b'a@b.' + v for v in byclass.values()] + [b'a@test', b'a@x.example.com', b'a@[1.2.3.4]', b'a@[IPv6:::1]', b'a@b', b'a@b.zz-unlisted', b'a@localhost',
+             'a@б.рф'.encode(), b'bad', b'a@-b.com']
+    orc = vlib.idn_oracle(gens.domains_of(addrs))
+    masks = sorted(set([0, 2047, 760, -1] + [1 << k for k in range(12)] + [2047 ^ (1 << k) for k in range(11)]))
+    al = ['A i r%d t%d m%d s %s x f' % (m, t, mk, gens.enc_e(a, orc)) for a in addrs for m in range(4) for t in (0, 1) for mk in masks]
+    corr(ctx, 'policy(real addresses)', al, lambda ln, o: o, describe=lambda ln, a, b: 'facade outcome differs from the model: %s vs %s' % (a, b),
+         nontrivial=lambda ln, o: True)
+    # relations on implementation outputs: tld_check off => mask irrelevant; literal => mask and tld_check irrelevant
+    c_a, _ = vlib.run_both(lib, ctx.snap, al)
+    grp = {}
+    for l, o in zip(al, c_a):
+        f = l.split(' '); tok = o.split(' ')
+        key = (f[6], f[2]); t = f[3]; mk = f[4]
+        ret = tok[4].split(':')[0] if len(tok) > 4 else '?'
+        grp.setdefault(key, {})[(t, mk)] = ret
+    nb = 0
+    for (ae, m), d in grp.items():
+        off = set(v for (t, mk), v in d.items() if t == 't0')
+        a = bytes.fromhex(ae[1:].split('/')[0])
+        if len(off) > 1 and nb < 3:
+            nb += 1; relation_violation(ctx, 'C08_tld_check_off', {'address': ae, 'mode': m, 'returns_by_(tld,mask)': {'%s,%s' % k: v for k, v in d.items() if k[0] == 't0'},
+                                        'explanation': 'with tld_check off the decision must not depend on allow_tld'})
+        if b'@[' in a and len(set(d.values())) > 1 and nb < 3:
+            nb += 1; relation_violation(ctx, 'C08_literals_outside_policy', {'address': ae, 'mode': m, 'explanation': 'decision for an address literal depends on allow_tld / tld_check'})
+    return finish(ctx, rule='J cases enumerate the finite policy space completely; A cases run real addresses of every class in the table through eav_init/eav_setup/eav_is_email; '
+                  'projection = (return value, error code, message)', extra_trusted=['libidn2 2.3.3 as IDN oracle'])
+
+# ------------------------------------------------------------------ C11
+TYPE_NAMES = {'generic': 3, 'country-code': 2, 'generic-restricted': 4, 'infrastructure': 5, 'test': 7, 'sponsored': 6}
+def csv_rows(path):
+    import csv
+    with open(path, newline='', encoding='utf-8') as fh:
+        return list(csv.reader(fh))[1:]
+
+def run_perl_generators(ctx, srcdir, puny_csv=None, raw_csv=None):
+    """Run the repository's two generators (unmodified, with the Text::CSV stand-in) in a scratch copy.
+    Returns (rows [(name,len,type-name)], header text, domain lines) or raises BuildError."""
+    work = os.path.join(ctx.snap.root, 'gen%d' % ctx.rnd.randrange(10**9))
+    vlib.sh(['rsync', '-a', srcdir + '/', work + '/'])
+    if puny_csv is not None:
+        open(os.path.join(work, 'data', 'punycode.csv'), 'w', encoding='utf-8', newline='').write(puny_csv)
+    if raw_csv is not None:
+        open(os.path.join(work, 'data', 'raw.csv'), 'w', encoding='utf-8', newline='').write(raw_csv)
+    env = {'PERL5LIB': os.path.join(vlib.HARN, 'perl-shim')}
+    rc1, o1 = vlib.sh(['perl', 'util/gentld.pl', 'include/eav/auto_tld.h', 'src/auto_tld.c', 'data/punycode.csv'], cwd=work, env=env)
+    rc2, o2 = vlib.sh(['perl', 'util/gen_utf8_pass_test.pl', 'data/tld-domains.txt', 'data/raw.csv'], cwd=work, env=env)
+    res = {'rc1': rc1, 'rc2': rc2, 'out1': o1[-500:], 'out2': o2[-500:]}
+    if rc1 == 0:
+        c = open(os.path.join(work, 'src', 'auto_tld.c'), encoding='utf-8', errors='replace').read()
+        res['c'] = c
+        res['rows'] = re.findall(r'\{ "((?:[^"\\\\]|\\\\.)*)", (\d+), (TLD_TYPE_\w+) \}', c)
+        res['h'] = open(os.path.join(work, 'include', 'eav', 'auto_tld.h')).read()
+    if rc2 == 0:
+        res['txt'] = open(os.path.join(work, 'data', 'tld-domains.txt'), 'rb').read()
+    import shutil; shutil.rmtree(work, ignore_errors=True)
+    return res
+
+def check_C11(ctx):
+    ok = step_proof(ctx)
+    lib = ctx.snap.lib()
+    src = ctx.snap.src
+    tab = ctx.snap.dump()['tld']
+    enum = ctx.snap.dump()['enum']
+    tname = {v: k for k, v in enum.items() if k.startswith('TLD_TYPE_')}
+    puny = csv_rows(os.path.join(src, 'data', 'punycode.csv'))
+    # (a) what the CSV dictates vs what the built library answers, row by row and for near misses
+    expect = {}
+    for d, ty, mgr in puny:
+        cls = 1 if mgr.lower().startswith('not assigned') else 9 if mgr.lower().startswith('retired') else TYPE_NAMES.get(ty)
+        expect[d.encode()] = cls
+    labels = list(expect.keys()) + [n.upper() for n in expect] + [bytes.fromhex(n) for n, l, t in tab]
+    labels += [n + b'x' for n in list(expect)[:400]] + [n[:-1] for n in list(expect)[:400] if len(n) > 1]
+    tl = ['T %s' % hx(l) for l in labels]
+    corr(ctx, 'lookup(all rows + near misses)', tl, lambda ln, o: o, exhaustive=True, nontrivial=lambda ln, o: True,
+         describe=lambda ln, a, b: 'is_tld differs from the lookup model over the dumped table: %s vs %s' % (a, b))
+    c_t, _ = vlib.run_both(lib, ctx.snap, tl)
+    nb = 0
+    for l, o in zip(labels, c_t):
+        want = expect.get(l.lower(), -26)
+        if str(want) != o and nb < 3:
+            nb += 1
+            relation_violation(ctx, 'C11_table_is_generated_from_csv', {'label': hx(l), 'label_text': l.decode('latin-1'), 'library_answers': o,
+                               'punycode_csv_dictates': want, 'explanation': 'is_tld() of the built library disagrees with data/punycode.csv (class per generator rules; -26 = not in the CSV)'})
+    # (b) the repository's generators, run unmodified on the shipped CSVs, must reproduce the shipped files
+    g = run_perl_generators(ctx, src)
+    def strip_ts(c):
+        return '\n'.join(l for l in c.splitlines() if 'auto-generated at' not in l)
+    progs = 0
+    if g['rc1'] != 0 or g['rc2'] != 0:
+        ctx.rep.violation({'kind': 'generator-failure', 'detail': g['out1'] + g['out2']}, found_input=False)
+    else:
+        progs += 2
+        shipped_c = open(os.path.join(src, 'src', 'auto_tld.c'), encoding='utf-8', errors='replace').read()
+        if strip_ts(g['c']) != strip_ts(shipped_c):
+            a, b = strip_ts(g['c']).splitlines(), strip_ts(shipped_c).splitlines()
+            diff = [(i, x, y) for i, (x, y) in enumerate(zip(a, b)) if x != y][:3]
+            relation_violation(ctx, 'C11_regeneration', {'file': 'src/auto_tld.c', 'first_differences(line, regenerated, shipped)': diff, 'line_counts': [len(a), len(b)],
+                               'explanation': 'util/gentld.pl run on the shipped data/punycode.csv does not reproduce the shipped table'})
+        if g['h'] != open(os.path.join(src, 'include', 'eav', 'auto_tld.h')).read():
+            relation_violation(ctx, 'C11_regeneration', {'file': 'include/eav/auto_tld.h', 'explanation': 'regenerated header differs from the shipped one'})
+        if g['txt'] != open(os.path.join(src, 'data', 'tld-domains.txt'), 'rb').read():
+            relation_violation(ctx, 'C11_regeneration', {'file': 'data/tld-domains.txt', 'explanation': 'util/gen_utf8_pass_test.pl run on data/raw.csv does not reproduce the shipped list'})
+    # (c) the generator model (Coq gen_row / gen_domain_line, extracted) against the Perl programs on generated CSVs
+    mgrs = ['ACME, Inc.', 'Not assigned', 'not assigned', 'NOT ASSIGNED (was X)', 'Retired', 'retired 2019', 'RETIRED', 'Internet Assigned Numbers Authority',
+            'Notassigned', ' Not assigned', 'Unassigned', 'He said "hi", twice', 'Retire', '', 'Société à mission']
+    ncsv = 12 if not ctx.thorough() else 120
+    glines, perl_rows = [], []
+    for k in range(ncsv):
+        rows = []
+        for i in range(ctx.rnd.randint(1, 40)):
+            d = ''.join(ctx.rnd.choice('abcdefghijklmnopqrstuvwxyz0123456789-') for _ in range(ctx.rnd.randint(1, 14)))
+            rows.append((d, ctx.rnd.choice(list(TYPE_NAMES)), ctx.rnd.choice(mgrs)))
+        text = '"Domain","Type","TLD Manager"\n' + ''.join('"%s","%s","%s"\n' % (d, t, m.replace('"', '""')) for d, t, m in rows)
+        r = run_perl_generators(ctx, src, puny_csv=text, raw_csv=text)
+        progs += 2
+        if r['rc1'] != 0 or r['rc2'] != 0:
+            ctx.rep.violation({'kind': 'generator-failure', 'csv': text[:400], 'detail': r['out1'] + r['out2']}, found_input=False); continue
+        dl = r['txt'].split(b'\n')
+        for (d, t, m), pr, line in zip(rows, r['rows'], dl):
+            glines.append('G %s %s %s' % (hx(d), hx(t), hx(m.encode()[:12])))
+            perl_rows.append('%s %s %d %s' % (hx(pr[0]), pr[1], enum.get(pr[2], -999), hx(line)))
+    if glines:
+        p = __import__('subprocess').run([vlib.model_drv(), ctx.snap.table_file, '0', '0', '0', '0'], input=('\n'.join(glines) + '\n').encode(), stdout=__import__('subprocess').PIPE)
+        mo = p.stdout.decode().splitlines()
+        ctx.rep.add_cases('generator-model vs perl', glines, perl_rows, lambda ln, o: True, note='util/gentld.pl and util/gen_utf8_pass_test.pl run unmodified on %d generated CSV files' % ncsv)
+        bad = [(l, a, b) for l, a, b in zip(glines, perl_rows, mo) if a != b]
+        for l, a, b in bad[:3]:
+            ctx.rep.violation({'kind': 'correspondence', 'correspondence': 'corr:C11/generator-model', 'case': l, 'perl_generators': a, 'model': b,
+                               'explanation': 'row printed by the repository generators differs from gen_row/gen_domain_line (the model theorem C11_table_is_generated_from_csv uses)'})
+    # (d) every domain of tld-domains.txt and raw.csv resolves in the built library (mode 6531, TLD checking on)
+    raw = csv_rows(os.path.join(src, 'data', 'raw.csv'))
+    doms = [l for l in open(os.path.join(src, 'data', 'tld-domains.txt'), 'rb').read().split(b'\n') if l] + [(r[0] + '.' + r[0]).encode() for r in raw]
+    orc = vlib.idn_oracle(doms)
+    ul = gens.u_lines(sorted(set(doms)), orc, tlds=(1,))
+    corr(ctx, 'tld-domains.txt + raw.csv', ul, first_fields(2), exhaustive=True, nontrivial=lambda ln, o: True)
+    c_u, _ = vlib.run_both(lib, ctx.snap, ul)
+    nb = 0
+    for l, o in zip(ul, c_u):
+        if not (o.split(' ')[0].isdigit() and int(o.split(' ')[0]) >= 1) and nb < 3:
+            nb += 1
+            relation_violation(ctx, 'C11_same_tld_set', {'case': l, 'implementation': o, 'explanation': 'a domain listed in data/tld-domains.txt / data/raw.csv is not classified by the library'})
+    # proof obligations failing with no mismatch found above is handled by finish()
+    return finish(ctx, rule='T cases: every CSV row and table row looked up in the built library and compared with what punycode.csv dictates; the two Perl generators are run '
+                  'unmodified (Text::CSV stand-in) on the shipped and on generated CSVs; U cases: every listed domain resolves', level='proof',
+                  extra_trusted=['harness/perl-shim/Text/CSV.pm (Text::CSV is not installed)', 'perl 5', 'Python csv module (translator for Gen/GenCsv.v)', 'libidn2 2.3.3 as IDN oracle'],
+                  extra_cov={'programs': progs})
+
+# ------------------------------------------------------------------ C13
+def check_C13(ctx):
+    step_proof(ctx)
+    lib = ctx.snap.lib()
+    orc = vlib.idn_oracle(gens.domains_of(gens.HIST_POOL))
+    desc = lambda ln, a, b: 'per-operation outcome (ret:errcode:live[:rc,idn_rc,flags,idn-calls,arg-ok]) of the history differs from the state-machine model of theorems C13_*: %s vs %s' % (a, b)
+    ex = gens.hist_exhaustive(orc, 4 if ctx.thorough() else 3)
+    corr(ctx, 'G-hist(exhaustive)', ex, lambda ln, o: o, exhaustive=True, describe=desc, nontrivial=lambda ln, o: ' R' in o, genuine=False,
+         note='all sequences over 13 operations (mode changes incl. an invalid one, tld/mask changes, setup, errstr, 5 addresses, one IDN fault), between eav_init;eav_setup and eav_errstr;eav_free')
+    rnd = gens.hist_random(ctx.rnd, orc, 3000 if not ctx.thorough() else 30000, length=40 if not ctx.thorough() else 200)
+    corr(ctx, 'G-hist(random)', rnd, lambda ln, o: o, describe=desc, nontrivial=lambda ln, o: ' R' in o, genuine=False)
+    # relation on the implementation alone: the last validation of a long history == the same validation on a fresh object
+    pairs, fresh = [], []
+    for h in rnd[:1500]:
+        ops = h.split(' ')[1:]
+        rfc, t, mk, conf = 3, 1, 760, None
+        for o in ops:
+            if o == 'i': rfc, t, mk, conf = 3, 1, 760, None
+            elif o[0] == 'r': rfc = int(o[1:])
+            elif o[0] == 't': t = int(o[1:])
+            elif o[0] == 'm': mk = int(o[1:])
+            elif o == 's' and rfc in (0, 1, 2, 3): conf = rfc
+        es = [o for o in ops if o[0] == 'e']
+        if not es or conf is None: continue
+        pairs.append(h + ' i r%d t%d m%d s %s x f' % (conf, t, mk, es[-1]))
+        # replay: append the same address again at the end of the history (before the final x f), compare with a fresh object
+        pairs[-1] = 'A ' + ' '.join(ops[:-2] + [es[-1], 'x', 'f'])
+        fresh.append('A i r%d t%d m%d s %s x f' % (conf, t, mk, es[-1]))
+    c_p, _ = vlib.run_both(lib, ctx.snap, pairs)
+    c_f, _ = vlib.run_both(lib, ctx.snap, fresh)
+    ctx.rep.add_cases('reused-vs-fresh', pairs, c_p, lambda ln, o: True, note='relation on implementation outputs: last eav_is_email + eav_errstr of a history == same call on a fresh object with the same settings')
+    nb = 0
+    for hp, hf, a, b in zip(pairs, fresh, c_p, c_f):
+        ta, tb = a.split(' '), b.split(' ')
+        if len(ta) < 3 or len(tb) < 3: continue
+        ea, eb = ta[-3].split(':'), tb[-3].split(':')
+        xa, xb = ta[-2].split(':')[0], tb[-2].split(':')[0]
+        # compare ret, errcode, result fields (not the live counter position) and the message
+        if (ea[0], ea[1], ea[3:] ) != (eb[0], eb[1], eb[3:]) or xa != xb:
+            if nb < 3:
+                nb += 1
+                relation_violation(ctx, 'C13_history_independence', {'history': hp, 'fresh': hf, 'reused_outcome': ' '.join(ta[-3:-1]), 'fresh_outcome': ' '.join(tb[-3:-1]),
+                                   'explanation': 'same settings, same address: outcome on a reused object differs from the outcome on a fresh one'})
+        if ta[-1].split(':')[-1] != '0' and nb < 3:
+            nb += 1
+            relation_violation(ctx, 'C13_free_releases_everything', {'history': hp, 'live_allocations_after_eav_free': ta[-1], 'explanation': 'allocations still live after eav_free'})
+    return finish(ctx, rule='A cases: operation sequences on one eav_t; every operation prints (return, errcode, live allocations, result fields, message); compared with the model '
+                  'and, for the last validation, with a fresh object; non-trivial = contains a validation', extra_trusted=['libidn2 2.3.3 as IDN oracle', '--wrap=malloc/free/strndup allocation counters'])
+
+# ------------------------------------------------------------------ C15
+def check_C15(ctx):
+    step_proof(ctx)
+    lib = ctx.snap.lib()
+    tab = ctx.snap.dump()
+    # the message table of this build vs the documented one is Theorem C15_message_table (regenerated GenEnums.v)
+    addrs = sorted(set(gens.addr_class(4) + gens.addr_class(4, alpha=gens.ADDR_ALPHA_Q) + gens.addr_structured() + gens.addr_boundary() +
+                       [b'u@' + d for d in gens.dom_boundary()[::7]] + [b'u@' + d for d in gens.reserved_domains()[::5] if b'@' not in d]))
+    byclass = {}
+    for nme, l, t in tab['tld']:
+        byclass.setdefault(t, bytes.fromhex(nme))
+    addrs += [b'a@b.' + v for v in byclass.values()]
+    orc = vlib.idn_oracle(gens.domains_of(addrs))
+    el = gens.e_lines(addrs, orc)
+    desc = lambda ln, a, b: 'error code differs from the model the C15 theorems are about: implementation %s, model %s' % (a, b)
+    corr(ctx, 'codes(is_*_email)', el, first_fields(2), nontrivial=nontriv_addr, describe=desc)
+    # facade: (ret, errcode, message) for every address in every mode with default mask, a zero mask, and invalid rfc values
+    al = []
+    for a in addrs[::3]:
+        for m in range(4):
+            al.append('A i r%d s %s x m0 %s x f' % (m, gens.enc_e(a, orc), gens.enc_e(a, orc)))
+    for z in (-2147483648, -1, 4, 5, 99, 2147483647):
+        al.append('A i s %s x r%d s x %s x r1 s x f' % (gens.enc_e(b'a@b.com', orc), z, gens.enc_e(b'bad', orc)))
+        al.append('A i r%d s x f' % z)
+    corr(ctx, 'facade(ret, errcode, message)', al, lambda ln, o: o, describe=lambda ln, a, b: 'facade outcome differs from model: %s vs %s' % (a, b),
+         nontrivial=lambda ln, o: ' R0' in o)
+    # truth predicates evaluated on implementation outputs alone (a few that need no model)
+    c_e, _ = vlib.run_both(lib, ctx.snap, el)
+    hist = {}
+    nb = 0
+    for l, o in zip(el, c_e):
+        f = l.split(' '); rc = o.split(' ')[0]
+        hist[rc] = hist.get(rc, 0) + 1
+        a = bytes.fromhex(f[3]) if f[3] != '-' else b''
+        i = a.rfind(b'@'); L = a[:i] if i >= 0 else a
+        bad = None
+        if rc == '-11' and b'..' not in L: bad = '"too many dots" but the local part has no ".."'
+        if rc == '-5' and len(L) <= 64: bad = '"too long" but the local part has at most 64 octets'
+        if rc == '-6' and all(c < 128 for c in L): bad = '"non-ascii" but the local part is pure ASCII'
+        if rc == '-3' and a != b'': bad = '"empty email address" for a non-empty input'
+        if rc == '-12' and not (L.startswith(b'.') or L.endswith(b'.')): bad = '"misplaced dot" but the local part neither starts nor ends with a dot'
+        if bad and nb < 3:
+            nb += 1
+            relation_violation(ctx, 'C15_truth', {'case': l, 'implementation': o, 'explanation': bad})
+    c_a, _ = vlib.run_both(lib, ctx.snap, al)
+    for l, o in zip(al, c_a):
+        for tok in o.split(' '):
+            p = tok.split(':')
+            if p[0] in ('R0', 'R1') and len(p) >= 4 and ((p[0] == 'R1') != (p[1] == '0')) and nb < 3:
+                nb += 1
+                relation_violation(ctx, 'C15_return_iff_no_error', {'case': l, 'implementation': o, 'explanation': 'eav_is_email returned %s with errcode %s' % (p[0][1:], p[1])})
+        if ('EMPTY' in o or ':N:' in o or ' N:' in o or '?' in o) and nb < 3:
+            nb += 1
+            relation_violation(ctx, 'C15_message', {'case': l, 'implementation': o, 'explanation': 'eav_errstr returned NULL, an empty string or a text that is neither a table message nor the IDN library message for the recorded IDN code'})
+    codes_seen = sorted(int(k) for k in hist if k.lstrip('-').isdigit())
+    return finish(ctx, rule='E cases: (rc, idn_rc) of the four validators; A cases: return value, error code and message id through the facade incl. invalid rfc values; '
+                  'truth predicates for "too many dots", "too long", "non-ascii", "empty", "misplaced dot" are evaluated on implementation outputs', 
+                  extra_trusted=['libidn2 2.3.3 as IDN oracle'], extra_cov={'result_codes_produced': codes_seen, 'result_code_histogram': hist})
+
+# ------------------------------------------------------------------ C16
+def check_C16(ctx):
+    step_proof(ctx)
+    addrs = sorted(set(gens.addr_class(4) + gens.addr_class(4, alpha=gens.ADDR_ALPHA_Q) + gens.addr_structured() + gens.addr_boundary() +
+                       [b'u@[' + c + b']' for c in gens.ip_contents()[::3]] + [b'u@' + d for d in gens.reserved_domains()[::9] if b'@' not in d]))
+    orc = vlib.idn_oracle(gens.domains_of(addrs))
+    el = gens.e_lines(addrs, orc)
+    desc = lambda ln, a, b: 'result record (rc idn_rc is_ipv4/is_ipv6/is_domain lpart domain) differs from the model of theorem C16_result_shapes: %s vs %s' % (a, b)
+    for name, lib in (('default-build', ctx.snap.lib()), ('EAV_EXTRA-build', ctx.snap.lib(extra=True))):
+        corr(ctx, name, el, first_fields(5), lib=lib, nontrivial=nontriv_addr, describe=desc)
+        c_e, _ = vlib.run_both(lib, ctx.snap, el)
+        nb = 0
+        for l, o in zip(el, c_e):
+            f = l.split(' '); r = o.split(' ')
+            if len(r) < 5 or not r[0].lstrip('-').isdigit(): continue
+            rc, fl = int(r[0]), r[2]
+            a = bytes.fromhex(f[3]) if f[3] != '-' else b''
+            i = a.rfind(b'@'); L, D = (a[:i], a[i + 1:]) if i >= 0 else (a, b'')
+            bad = None
+            if fl.count('1') > 1: bad = 'more than one of is_ipv4/is_ipv6/is_domain set'
+            elif rc >= 0 and fl.count('1') != 1: bad = 'accepted but not exactly one flag'
+            elif rc >= 0 and D.startswith(b'[') and fl[2] == '1': bad = 'address literal flagged as domain'
+            elif rc >= 0 and not D.startswith(b'[') and fl != '001': bad = 'host name not flagged as domain'
+            elif rc >= 0 and D.startswith(b'[') and ((b'.' in D and b':' not in D) != (fl == '100')): bad = 'family flag does not match the literal present'
+            elif f[2] == '0' and rc > 0: bad = 'positive code without TLD checking'
+            elif rc < 0 and rc not in (-23, -26) and fl != '000': bad = 'syntactically invalid address with a flag set'
+            elif lib.extra and rc >= 0 and (r[3] != hx(L) or r[4] != hx(D[1:-1] if D.startswith(b'[') else D)): bad = 'lpart/domain do not reproduce the two halves'
+            elif lib.extra and rc < 0 and rc not in (-23, -26) and (r[3] != '~' or r[4] != '~'): bad = 'lpart/domain not NULL for a syntactically invalid address'
+            if bad and nb < 3:
+                nb += 1
+                relation_violation(ctx, 'C16_result_shapes', {'case': l, 'build': name, 'implementation': o, 'explanation': bad})
+    return finish(ctx, rule='E cases in the default and the -DEAV_EXTRA build; projection = rc, idn_rc, three flags, lpart, domain; the C16 clauses are also evaluated directly on the '
+                  'implementation outputs', extra_trusted=['libidn2 2.3.3 as IDN oracle'])
+
+# ------------------------------------------------------------------ C19
+def check_C19(ctx):
+    step_proof(ctx)
+    lib = ctx.snap.lib()
+    codes = [int(x) for x in re.findall(r'\((-?\d+)\)%Z', open(os.path.join(vlib.COQ, 'Gen', 'GenIdnCodes.v')).read())]
+    codes = sorted(set(c for c in codes if c != 0 and c < 0)) + [7, -1, -999]
+    pool = [b'a@b.org', 'и@почта.рф'.encode(), b'a@test', b'"q"@x.y.zz', b'a@b']
+    orc = vlib.idn_oracle(gens.domains_of(pool))
+    desc = lambda ln, a, b: 'outcome under an injected IDN failure (code/buffer in the case line) differs from the model of theorems C19_*: %s vs %s' % (a, b)
+    lines = []
+    for c in codes:
+        for buf in (0, 1):
+            for a in pool:
+                for t in (0, 1):
+                    d = a[a.rfind(b'@') + 1:]
+                    lines.append('E 3 %d %s %d - %d' % (t, hx(a), c, buf))
+                    lines.append('U %d %s %d - %d' % (t, hx(d), c, buf))
+    corr(ctx, 'single-call faults', lines, lambda ln, o: o, exhaustive=True, describe=desc, nontrivial=lambda ln, o: True,
+         note='every libidn2 return code (+ unknown codes) x with/without an output buffer x 5 addresses x tld off/on, direct validator and is_utf8_domain')
+    # runs of 1..50 validations with a single fault at each position, and seeded multi-fault runs
+    runs = []
+    nrun = 12 if not ctx.thorough() else 50
+    for n in sorted(set([1, 2, 3, 5, 8, 13, 21, 34, 50][:nrun] if not ctx.thorough() else range(1, 51))):
+        for pos in range(n):
+            c = codes[(n + pos) % len(codes)]; buf = (n + pos) % 2
+            seq = ['i', 's']
+            for k in range(n):
+                a = pool[(k + n) % len(pool)]
+                seq.append(gens.enc_e(a, orc, fault=c, buf=buf) if k == pos else gens.enc_e(a, orc))
+                seq.append('x')
+            seq.append('f')
+            runs.append('A ' + ' '.join(seq))
+    for _ in range(300 if not ctx.thorough() else 3000):
+        seq = ['i', 's']
+        for k in range(ctx.rnd.randint(1, 50)):
+            a = ctx.rnd.choice(pool)
+            seq.append(gens.enc_e(a, orc, fault=ctx.rnd.choice(codes), buf=ctx.rnd.randint(0, 1)) if ctx.rnd.random() < 0.3 else gens.enc_e(a, orc))
+            if ctx.rnd.random() < 0.5: seq.append('x')
+            if ctx.rnd.random() < 0.1: seq += [ctx.rnd.choice(['r0', 'r3', 'r1']), 's']
+        seq.append('f')
+        runs.append('A ' + ' '.join(seq))
+    corr(ctx, 'fault runs', runs, lambda ln, o: o, describe=desc, nontrivial=lambda ln, o: ':2:' in o)
+    # implementation-only relations: rejected with code 2 + library message, no flag, balance 1 live record, nothing live after free
+    c_r, _ = vlib.run_both(lib, ctx.snap, runs)
+    nb = 0
+    for l, o in zip(runs, c_r):
+        ops = l.split(' ')[1:]; toks = o.split(' ')
+        for op, tk in zip(ops, toks):
+            if op[0] == 'e':
+                orcv = int(op.split('/')[1]); p = tk.split(':')
+                if orcv != 0 and len(p) >= 4 and p[3].split(',')[3] == '1':        # the conversion was reached and failed
+                    r = p[3].split(',')
+                    if not (p[0] == 'R0' and p[1] == '2' and r[0] == '-2' and r[1] == str(orcv) and r[2] == '000' and p[2] == '1') and nb < 3:
+                        nb += 1
+                        relation_violation(ctx, 'C19_failure_is_a_clean_rejection', {'history': l, 'operation': op, 'implementation': tk,
+                                           'explanation': 'expected ret 0, errcode 2 (EEAV_IDN_ERROR), rc -2, idn_rc = injected code, no flag, one live allocation'})
+        if toks and toks[-1].split(':')[-1] != '0' and nb < 3:
+            nb += 1
+            relation_violation(ctx, 'C19_no_leak', {'history': l, 'implementation_last': toks[-1], 'explanation': 'allocations live after eav_free (an IDN output buffer or a result record leaked)'})
+    # ASan/LSan build over the same runs: leaks and double frees inside the library
+    ls = ctx.snap.lib(san=True)
+    sub = lines[:600] + runs[:150]
+    c_s, m_s = vlib.run_both(ls, ctx.snap, sub)
+    ctx.rep.add_cases('asan+ubsan build', sub, c_s, lambda ln, o: True, note='same cases on a -fsanitize=address,undefined build (double free / use after free / leak at exit)')
+    for l, a, b in [(l, a, b) for l, a, b in zip(sub, c_s, m_s) if a != b][:3]:
+        ctx.rep.violation({'kind': 'correspondence', 'correspondence': 'corr:C19/asan', 'case': l, 'implementation(asan build)': a, 'model': b})
+    return finish(ctx, rule='fault injection: idn2_to_ascii_8z is interposed (-Wl,--wrap) and returns the code / buffer given in the case line; E, U cases single calls, A cases runs of 1-50 '
+                  'validations with faults at chosen positions; allocation counters via --wrap=malloc/free/strndup; non-trivial = an IDN failure was recorded',
+                  level='proof', extra_trusted=['--wrap interposers of harness/drv.c', 'gcc ASan/UBSan/LSan', 'libidn2 2.3.3 (idn2_strerror, real conversions for the non-faulted calls)'])
+
+CHECKS = {'C11': check_C11, 'C13': check_C13, 'C15': check_C15, 'C16': check_C16, 'C19': check_C19, 'C01': check_C01, 'C07': check_C07, 'C08': check_C08, 'C09': check_C09, 'C12': check_C12, 'C03': check_C03, 'C02': check_C02, 'C04': check_C04}
 
 def main():
     if len(sys.argv) >= 3 and sys.argv[1] == 'replay':
